@@ -22,7 +22,7 @@ fn main() {
     match args.get(1).map(|s| s.as_str()) {
         Some("replay") => {
             // `--subscriber`: install a `tracing` subscriber (tracing build only); `--calls`: append `#f=<n>`, the number of
-            // invocations of the user closure of `map` (its call sits inside a message expression of `call!`)
+            // invocations of the user closures (map's f — which sits inside a message expression of `call!` —, filter's predicate, scan's reducer)
             if args.iter().any(|a| a == "--subscriber") {
                 install_subscriber();
             }
